@@ -65,7 +65,7 @@ def run(chk):
             B, L, N, s = corpus[it]
             n, m = B.shape
         else:
-            B, n, m, N, L, s = R.gen_region_case(rng, *((12, 7) if thorough else (9, 5)), graded=0.25, tiny=0.15, ties=0.25)
+            B, n, m, N, L, s = R.gen_region_case(rng, *((12, 7) if thorough else (9, 5)), graded=0.25, tiny=0.15, ties=0.25, faint=0.15)
         if it >= len(corpus) and rng.random() < 0.3:
             # numerically rank-deficient basis (rank < N possible): residuals become rounding-level; the counts are then outside
             # the property's feasibility clause, but SSPOR must still hand back GQR's own first N sensors
@@ -88,6 +88,12 @@ def run(chk):
                     piv, steps = R.run_gqr_partial(B, opt, L, A, N, s_first, s)
                     case["history"] = f"fit(all settings, n_const_sensors={s_first}); fit(B, n_const_sensors={s})"
                     chk.count("allowance_changed_by_partial_refit")
+                elif it >= len(corpus) and rng.random() < 0.25:
+                    # the caller keeps one region list, fits, edits the list in place, fits again with the same objects
+                    L_first = sorted(set(int(v) for v in rng.choice(n, size=int(rng.integers(0, n)), replace=False)))
+                    piv, steps = R.run_gqr_edited(B, opt, L_first, L, A, N, s)
+                    case["history"] = f"fit(region {L_first}); the same list edited in place to {L}; fit again"
+                    chk.count("region_list_edited_in_place")
                 else:
                     piv, steps = R.run_gqr(B, opt, L, A, N, s, reuse=(chk.evaluations % 2 == 1))
             except Exception as e:
